@@ -1136,3 +1136,125 @@ Proof.
   exists l. split; [auto|]. destruct (run_sound _ _ _ _ _ _ R) as (_ & T & _ & Y & _).
   split; [auto|]. split; [auto|]. eapply run_nothing_after_raise; eauto.
 Qed.
+
+(* ---------- the flag raised in the first yield of a node ---------- *)
+(* Every yield of a run is the prologue of some node (eval_expr / exec_stmt /
+   exec_block / the program node).  With the corrected order the node entered
+   while the flag goes up does nothing: the state it leaves is the state it was
+   entered with, plus the yield count and the flag. *)
+Definition raise_now (s : state) : Prop :=
+  st_stopped s = false /\ st_stop_at s = Some (st_yields s).
+
+Theorem raise_at_entry_freezes n P e s :
+  raise_now s -> st_check_after_yield s = true ->
+  let s' := upd_yield (S (st_yields s)) true s in
+  (forall x, eval_expr (S n) P e x s = (Er EStopped, s')) /\
+  (forall x, exec_stmt (S n) P e x s = (Er EStopped, s')) /\
+  (forall l, exec_block (S n) P e l s = (Er EStopped, s')) /\
+  run_program n P s = (OErr EStopped, test_report s').
+Proof.
+  intros (St & At) Ck s'. repeat split; intros.
+  - cbn [eval_expr]. now apply tick_raise_cuts.
+  - cbn [exec_stmt]. now apply tick_raise_cuts.
+  - cbn [exec_block]. now apply tick_raise_cuts.
+  - unfold run_program. rewrite tick_raise_cuts by auto. reflexivity.
+Qed.
+
+(* ---------- the OLD order (flag tested only before the yield): refutations ---------- *)
+Definition cls_stmt : stmt := SCallStmt (s_ "cls") [].
+Definition empty_program : program := {| p_funcs := []; p_handlers := []; p_stmts := [] |}.
+
+(* the node entered while the flag goes up still runs: one more effect *)
+Theorem raise_at_entry_freezes_refuted_old :
+  exists n P e x s, raise_now s /\ st_check_after_yield s = false /\
+    exists r s', exec_stmt (S n) P e x s = (r, s') /\ st_trace s' = EvCls :: st_trace s.
+Proof.
+  exists 2, empty_program, [], cls_stmt, (init_state (Some 0) [] false false).
+  split; [split; reflexivity|]. split; [reflexivity|].
+  eexists. eexists. split; [vm_compute; reflexivity|reflexivity].
+Qed.
+
+Definition two_prints : program :=
+  {| p_funcs := []; p_handlers := [];
+     p_stmts := [SCallStmt (s_ "print") [ENum 1]; SCallStmt (s_ "print") [ENum 2]] |}.
+Definition one_print : program :=
+  {| p_funcs := []; p_handlers := []; p_stmts := [SCallStmt (s_ "print") [ENum 1]] |}.
+
+(* `print 1` `print 2`, flag raised at yield 2 (entering the argument of the first
+   print): both orders make no further yield, the old one still prints *)
+Theorem stop_one_more_effect_refuted_old :
+  exists fuel P k,
+    let s_old := snd (run_program fuel P (init_state (Some k) [] false false)) in
+    let s_new := snd (run_program fuel P (init_state (Some k) [] false true)) in
+    st_stopped s_old = true /\ st_yields s_old = S k /\
+    st_stopped s_new = true /\ st_yields s_new = S k /\
+    st_trace s_new = [] /\
+    st_trace s_old = [EvPrint [PStr (s_ "1"); PStr [10%N]]].
+Proof. exists 10, two_prints, 2. vm_compute. repeat split; reflexivity. Qed.
+
+(* `print 1`, flag raised at its last yield: the old order reports success although the flag is up *)
+Theorem stopped_result_refuted_old :
+  exists fuel P k s, run_program fuel P (init_state (Some k) [] false false) = (ODone, s) /\
+                     st_stopped s = true /\ st_yields s = S k.
+Proof. exists 10, one_print, 2. eexists. split; [vm_compute; reflexivity|]. split; reflexivity. Qed.
+
+(* eval_call is not an eval node: it does not test the flag itself (it is only ever
+   reached through eval_expr / exec_stmt, which do) *)
+Example eval_call_alone_not_frozen :
+  exists s r s', st_stopped s = true /\
+    eval_call 2 empty_program [] (s_ "cls") [] s = (r, s') /\ st_trace s' = EvCls :: st_trace s.
+Proof.
+  exists (set_ctl None true 0 true (init_state None [] false true)).
+  eexists. eexists. split; [reflexivity|]. split; [vm_compute; reflexivity|reflexivity].
+Qed.
+
+(* ---------- summaries over the nine functions ---------- *)
+Definition MonoAll (n : nat) (P : program) : Prop :=
+  (forall e x, Mono (eval_expr n P e x)) /\
+  (forall e l, Mono (eval_exprs n P e l)) /\
+  (forall e name args, Mono (eval_call n P e name args)) /\
+  (forall e s, Mono (exec_stmt n P e s)) /\
+  (forall e l, Mono (exec_stmts n P e l)) /\
+  (forall e l, Mono (exec_block n P e l)) /\
+  (forall e c body, Mono (exec_cond n P e c body)) /\
+  (forall e c body, Mono (exec_while n P e c body)) /\
+  (forall e var rg body, Mono (exec_for n P e var rg body)).
+
+Theorem mono_all n P : MonoAll n P.
+Proof. unfold MonoAll. repeat match goal with |- _ /\ _ => split end; intros; apply built_mono; auto. Qed.
+
+(* every primitive of the state monad except [tick] is independent of the stop machinery *)
+Theorem primitives_stop_independent :
+  (forall e, atom (emitE e)) /\ (forall v, atom (alloc v)) /\ (forall l, atom (load l)) /\
+  (forall l v, atom (store l v)) /\ (forall n e, atom (lookup n e)) /\
+  (forall n l e, atom (set_var n l e)) /\ (forall n l e, atom (update_var n l e)) /\
+  (forall n l, atom (copy_or_ref n l)) /\ (forall n l, atom (deep_copy n l)) /\
+  (forall n r l, atom (show n r l)) /\ (forall n a b, atom (equals n a b)) /\
+  (forall n a b, atom (same n a b)) /\ (forall t, atom (zero_val t)) /\
+  (forall op xs r, atom (bin_arr op xs r)) /\ (forall e b msg, atom (global_err e b msg)) /\
+  (forall args, atom (run_test args)) /\ (forall rg, atom (ranger_next rg)) /\
+  (forall ps args fr, atom (bind_params ps args fr)) /\ (forall ps args fr, atom (bind_payload ps args fr)) /\
+  (forall name e args m, builtin name e args = Some m -> atom m).
+Proof.
+  repeat match goal with |- _ /\ _ => split end; intros; auto with atomdb.
+  eapply atom_builtin; eauto.
+Qed.
+
+(* an endless program stays interruptible: whatever the yield k at which the
+   platform raises the flag, with enough fuel to get there the run ends "stopped"
+   right at that yield *)
+Theorem endless_is_interruptible k n ff :
+  k + 7 <= 2 * n ->
+  exists s, run_program n endless_program (init_state (Some k) [] ff true) = (OErr EStopped, s) /\
+            st_yields s = S k.
+Proof.
+  intro Hn. set (s0 := init_state (Some k) [] ff true).
+  assert (Off : machinery_off (set_stop None s0)) by (split; reflexivity).
+  destruct (endless_run_yields n _ Off ltac:(lia)) as (sI & EI & YI).
+  destruct (run_program n endless_program s0) as [ok sk] eqn:Ek.
+  assert (Ek' : run_program n endless_program (set_stop (Some k) s0) = (ok, sk)) by exact Ek.
+  destruct (run_program_stop_prefix n endless_program k s0 eq_refl eq_refl _ _ EI _ _ Ek')
+    as [(N & _) | (R & -> & Y & _)].
+  - exfalso. apply N. simpl in *. lia.
+  - exists sk. auto.
+Qed.
